@@ -680,7 +680,7 @@ def run(ctx: vlib.Ctx):
     # 2+3. cases
     rng = ctx.rng
     thorough = not ctx.quick()
-    n_schemas = ctx.budget(60, 600)
+    n_schemas = ctx.budget(60, 450)
     vals_per = ctx.budget(3, 4)
     ser_cases, de_cases = [], []     # (case dict, res)
     envs = []                        # coq env text per schema index
@@ -774,7 +774,7 @@ def run(ctx: vlib.Ctx):
         si += 1
 
     # context / flag chains (depth 3-5, every class with its own opt-ins and hook profile)
-    for _ in range(ctx.budget(45, 500)):
+    for _ in range(ctx.budget(45, 350)):
         schema = gen_chain_schema(rng)
         root_ty = ["dc", len(schema["classes"]) - 1]
         roots = [(root_ty, gen_value_capped(rng, schema, root_ty, schema["toml_safe"], maxd=12)) for _ in range(2)]
@@ -786,7 +786,7 @@ def run(ctx: vlib.Ctx):
         si += 1
 
     # class hierarchies: subclass instances under base-typed fields, class-level and Annotated discriminators
-    for _ in range(ctx.budget(45, 500)):
+    for _ in range(ctx.budget(45, 400)):
         schema = gen_hier_schema(rng)
         n = len(schema["classes"])
         roots = []
@@ -804,7 +804,7 @@ def run(ctx: vlib.Ctx):
         si += 1
 
     # unions whose members differ in their keyword-adding options
-    for _ in range(ctx.budget(30, 300)):
+    for _ in range(ctx.budget(30, 200)):
         schema = gen_union_flags_schema(rng)
         root_ty = ["dc", len(schema["classes"]) - 1]
         do_schema(si, schema, [(root_ty, gen_value_capped(rng, schema, root_ty, schema["toml_safe"])) for _ in range(2)])
